@@ -57,6 +57,9 @@ pub enum Case {
     /// the session means what the tail means (`via`: 0 stdin, one per line; 1 stdin, `;`-joined on
     /// one line; 2 `--command`, one per line; 3 `--command`, `;`-joined) - through the real binary
     LongRun { unit: String, count: u32, via: u8 },
+    /// one `echo` line of `len` characters on standard input, through the real binary: it is one
+    /// command however long it is (then `move r1 x17; print r1`)
+    LongLine { len: u32 },
 }
 
 /// Units of a long run: rejected by the parser, rejected when executed, blank, or inspection only.
@@ -205,6 +208,10 @@ fn judge_tokens(tokens: &[String], with_break: bool) -> Obs {
             let err2 = String::from_utf8_lossy(&lacebox::strip_sgr(&o2.stderr)).to_string();
             let last = err2.lines().rev().find(|l| l.trim_start().starts_with("[V") || l.trim_start().starts_with("[G") || l.trim_start().starts_with("[B")).unwrap_or("").trim().to_string();
             let k: Option<usize> = last.trim_matches(|c| c == '[' || c == ']').get(1..).and_then(|x| x.parse().ok());
+            if loc == "<spin>" {
+                obs.set_fail("C14:session-spins-without-progress", format!("in the normal output mode: {msg}; last marker {last} (token {:?})", k.and_then(|k| tokens.get(k))));
+                return obs;
+            }
             obs.set_fail(
                 format!("C14:{}", super::c01::panic_sig(msg, loc)),
                 format!("in the normal output mode the debugger panicked: {msg} at {loc}; last marker {last} (token {:?})", k.and_then(|k| tokens.get(k))),
@@ -363,6 +370,10 @@ fn long_token() -> impl Strategy<Value = String> {
         // same low byte (U+0161 for 'a', U+3042 for 'B', U+0130 for '0', ...): never an integer
         2 => (prop::sample::select(vec!["x1a", "xBEEF", "0x7f", "#12", "-#3", "b101", "o17", "x-1c", "^2", "^-x1", "ag+1", "xg-0x2", "r1", "42", "0b11", "+xff"]), any::<u16>(), 1u32..0x40)
             .prop_map(|(t, at, k)| collide(t, at, k)),
+        // control characters that are not separators (ESC, BEL, BS, DEL, CSI): part of the token,
+        // which therefore is no integer, no label, nothing
+        2 => (prop::sample::select(vec!["\u{1b}", "a\u{1b}b", "\u{1b}[", "\u{1b}[1", "x1\u{1b}", "\u{7}", "\u{8}1", "1\u{7f}", "\u{9b}1m", "#\u{1b}5", "\u{1b}\u{1b}", "ag\u{1b}+1"]), 0usize..3)
+            .prop_map(|(t, rep)| t.repeat(rep + 1)),
         // long tokens with a multi-byte character around byte offsets 32, 64, 128, 256 (where
         // something that shortens, pads or slices by bytes would cut)
         2 => (prop::sample::select(vec![32usize, 64, 128, 256]), 0usize..5, prop::sample::select(vec!['1', 'a', 'x', 'g', '0']), prop::sample::select(vec!['é', '日', '😀']), prop::sample::select(vec!["", "#", "x", "-", "^", "ag+"]), 0usize..4)
@@ -761,8 +772,38 @@ fn judge_transport_tty(commands: &[String], split: usize, sep_arg: bool, mixed: 
     obs
 }
 
+fn judge_long_line(len: u32) -> Obs {
+    let mut obs = Obs::default();
+    obs.key = hash_of(&("long-line", len));
+    obs.nontrivial = true;
+    obs.label("one-very-long-line-through-real-binary");
+    obs.show = Some(format!("`echo` followed by {len} x 'a' on one line of standard input, then `move r1 x17`, `print r1`, `exit`"));
+    let text: String = std::iter::repeat('a').take(len as usize).collect();
+    let stdin = format!("echo {text}\nmove r1 x17\nprint r1\nexit\n");
+    let dir = crate::cli::TempDir::new();
+    dir.write("p.asm", NAME_PROGRAM.as_bytes());
+    let run = crate::cli::lace(&["debug", "p.asm", "--minimal"], dir.path(), stdin.as_bytes(), false, 600);
+    if run.timed_out {
+        obs.excluded = Some("watchdog");
+        return obs;
+    }
+    let err = String::from_utf8_lossy(&run.stderr).to_string();
+    let want = format!("[{text}]\nx0017\n");
+    if run.panicked() {
+        obs.set_fail("C14:debugger-crashes-on-long-line", format!("exit {:?} signal {:?}; debugger output ends {:?}", run.code, run.signal, clip(&err[err.len().saturating_sub(300)..])));
+    } else if err != want || run.code != Some(0) {
+        let at = err.bytes().zip(want.bytes()).position(|(a, b)| a != b).unwrap_or(err.len().min(want.len()));
+        obs.set_fail(
+            "C14:long-line-changes-meaning",
+            format!("a line of {} bytes is one `echo` command: expected its text back once, then x0017; exit {:?}, {} bytes of debugger output (expected {}), first difference at byte {at}: {:?}", len + 5, run.code, err.len(), want.len(), clip(&err[at.min(err.len())..(at + 200).min(err.len())])),
+        );
+    }
+    obs
+}
+
 pub fn judge_case(c: &Case) -> Obs {
     match c {
+        Case::LongLine { len } => judge_long_line(*len),
         Case::Transport { commands, split, sep_arg, sep_stdin, decorate } if *decorate == 255 => judge_transport_cli(commands, *split, *sep_arg, *sep_stdin),
         Case::Transport { commands, split, sep_arg, sep_stdin, decorate } if *decorate == 254 => judge_transport_tty(commands, *split, *sep_arg, *sep_stdin),
         Case::Tokens { tokens, with_break } => {
@@ -805,12 +846,12 @@ impl Prop for C14 {
         "C14"
     }
     fn rule(&self) -> &'static str {
-        "(a) ALL argument strings of length <= 4 (quick) / <= 5 (thorough) over the alphabet {+ - # x o b 0 1 8 a g ^ r _}, each used as `move r1 <t>` (value) and `goto <t>` (location), and up to length 3 also as `break add <t>`, against a program at origin 0 that defines 46 labels colliding with tricky spellings (xg, b8, o, x, r8, R00, _, ... and b10, b1, o10, ... which the assembler accepts as labels while the command grammar reads them as binary / octal integers); plus generated longer tokens: numbers at the i16/u16/i32 edges (and beyond 2^32) in every radix and sign position with leading zeros, label+-offset, ^offset, multi-byte characters. \
+        "(a) ALL argument strings of length <= 4 (quick) / <= 5 (thorough) over the alphabet {+ - # x o b 0 1 8 a g ^ r _}, each used as `move r1 <t>` (value) and `goto <t>` (location), and up to length 3 also as `break add <t>`, against a program at origin 0 that defines 46 labels colliding with tricky spellings (xg, b8, o, x, r8, R00, _, ... and b10, b1, o10, ... which the assembler accepts as labels while the command grammar reads them as binary / octal integers); plus generated longer tokens: numbers at the i16/u16/i32 edges (and beyond 2^32) in every radix and sign position with leading zeros, label+-offset, ^offset, multi-byte characters, control characters that are not separators (ESC, BEL, BS, DEL, CSI). \
          Oracle RefCmd (doc comment of the integer parser, NaiveType table, help.txt): value accepted <=> documented integer in [-32768, 65535], R1 = v mod 2^16; location => PC / breakpoint list equals the resolved address; everything else => an error is reported and nothing changes; never a panic; every batch is run a second time in the normal (non-minimal) output mode, where errors are rendered in full: no panic, same final machine state. Generated tokens include long ones with a multi-byte character around byte offsets 32 / 64 / 128 / 256. \
          (b) every command name, alias and listed misspelling (one- and two-word forms) in 3 random letter cases: alias => transcript, output, exit and final state identical to the canonical name in a fixed scenario; misspelling => CommandError and no effect. `print` without argument = `print ^`. \
          (c) generated scripts of 1-8 commands delivered through --command, through stdin, or split at every point, with `;` or newline as separator, empty commands and surrounding blanks: stdout, stderr, exit status and final state identical to the plain delivery (in-process through the real CommandReader, plus a sample through the real binary with a pipe as stdin, plus a sample typed key by key at a pseudo-terminal - one command per line, `;`-joined on a line, or with a `;` left at the end of a line - where the debugger's output with the prompt drawing removed must equal that of the plain delivery). \
          (d) scripts on standard input in which one line contains bytes that are not UTF-8 (lone / truncated / surrogate sequences at the start, in the middle or at the end of a command; a character of the command, or a `;` / newline joining two commands, spelled as an over-long 2-, 3- or 4-byte sequence): no panic, and the session equals the one with an invalid textual line in its place. \
-         (e) through the real binary: runs of 1,000 / 30,000 / 70,000 (thorough: 300,000) repetitions of one command that is rejected, blank or inspection-only (14 units), one per line or `;`-joined, on standard input or in `--command`, followed by a short tail: no crash, and exit status, program output and the tail's debugger output equal those of the tail alone (newline-separated: the whole debugger output is the unit's output repeated). Non-trivial: token with a sign/prefix and a digit; name variant; script split strictly inside. Distinct = token batch / name / (script, split)."
+         (e) through the real binary: runs of 1,000 / 30,000 / 70,000 (thorough: 300,000) repetitions of one command that is rejected, blank or inspection-only (14 units), one per line or `;`-joined, on standard input or in `--command`, followed by a short tail, and single `echo` lines of 2^16 .. 5 * 2^20 (thorough: 2^24) characters (one command however long): no crash, and exit status, program output and the tail's debugger output equal those of the tail alone (newline-separated: the whole debugger output is the unit's output repeated). Non-trivial: token with a sign/prefix and a digit; name variant; script split strictly inside. Distinct = token batch / name / (script, split)."
     }
     fn assumptions(&self) -> Vec<String> {
         vec![
@@ -934,6 +975,15 @@ impl Prop for C14 {
             }
         }
         rep.exhaustive.push(format!("long runs: {} units x {:?} repetitions x deliveries, through the real binary", LONG_UNITS.len(), counts));
+        // one very long line (around 2^16, 2^20, 2^22 bytes; thorough: 2^24 too)
+        let lens: &[u32] = ctx.tier.pick(&[65_530, 65_536, 1 << 20, (1 << 22) - 5, (1 << 22) + 1, 5 << 20][..], &[65_530, 65_536, 1 << 20, (1 << 22) - 5, (1 << 22) + 1, 5 << 20, (1 << 24) + 1][..]);
+        for &len in lens {
+            n += 1;
+            if ctx.mine(n) {
+                judge_one(ctx, rep, &Case::LongLine { len }, &mut |c| judge_case(c));
+            }
+        }
+        rep.exhaustive.push(format!("one `echo` line of {lens:?} characters on standard input, through the real binary"));
     }
     fn needs_cli(&self) -> bool {
         true
